@@ -54,6 +54,7 @@ type Case struct {
 		Add int `json:"add"`
 	} `json:"frame_rel_header"`
 	Devs []encenv.Placement `json:"devs"`
+	Big  bool               `json:"big_stream,omitempty"` // the streamed 65 538-segment document (Len is ignored)
 }
 
 func (c *Case) String() string {
@@ -263,7 +264,12 @@ func run(r *enumx.Run, replay *enumx.ReplayCase) {
 		for i := range c.Devs {
 			c.Devs[i].Fix()
 		}
-		_, fails := runCase(&c, false)
+		var fails []failure
+		if c.Big {
+			fails, _ = bigStream(c.Dir)
+		} else {
+			_, fails = runCase(&c, false)
+		}
 		for _, f := range fails {
 			if f.key == replay.Key {
 				r.Violation(f.key, f.msg+"\ncase: "+c.String(), &c)
@@ -272,7 +278,7 @@ func run(r *enumx.Run, replay *enumx.ReplayCase) {
 		return
 	}
 
-	r.Rule("each evaluation is one complete Encrypt->Decrypt pipeline on the real code with all three oracles (round trip; README layout; reference implementation reads kit's document / kit reads the reference's document written with the manifest members in the opposite order). S1: full product cipher{unset,AES-GCM,CHACHA20-POLY1305} x 8 key-wrap configurations (5 algorithms, 2 aliases, RSA-4096) x 5 key-name options x 14 plaintext lengths x 2 directions. S2: uniform chunking policies (source chunk {fill,1,7,4096,65535,65536} x consumer buffer {big,1,7,4096}) for each pipeline half. S2h: the ciphertext source delivers uniform frames of headerLength+k bytes, k in -2..3, and 2*headerLength+1. S3: every set of <= bound deviations {0 bytes,1 byte,n-1 bytes,stop at segment boundary,data+EOF, Read ends at header end+k for k in -1..3 (ciphertext source) | 1-byte buffer,7-byte buffer} placed on the calls of the four environments, generated once each in (environment, call index) order from the applicability recorded in the parent run. Every evaluation is a distinct case by construction; none is trivial (each runs the full pipeline).")
+	r.Rule("each evaluation is one complete Encrypt->Decrypt pipeline on the real code with all three oracles (round trip; README layout; reference implementation reads kit's document / kit reads the reference's document written with the manifest members in the opposite order). S1: full product cipher{unset,AES-GCM,CHACHA20-POLY1305} x 8 key-wrap configurations (5 algorithms, 2 aliases, RSA-4096) x 5 key-name options x 14 plaintext lengths x 2 directions. S2: uniform chunking policies (source chunk {fill,1,7,4096,65535,65536} x consumer buffer {big,1,7,4096}) for each pipeline half. S2h: the ciphertext source delivers uniform frames of headerLength+k bytes, k in -2..3, and 2*headerLength+1. S3: every set of <= bound deviations {0 bytes,1 byte,n-1 bytes,stop at segment boundary,data+EOF, Read ends at header end+k for k in -1..3 (ciphertext source) | 1-byte buffer,7-byte buffer} placed on the calls of the four environments, generated once each in (environment, call index) order from the applicability recorded in the parent run. S4 (thorough): one streamed 65538-segment document in both directions, so that segment counters beyond 65535 occur. Every evaluation is a distinct case by construction; none is trivial (each runs the full pipeline).")
 
 	// S3 is cheap (a few thousand pipelines), so both tiers take all placements
 	// of <= 2 deviations; quick restricts S2/S3 to the boundary lengths.
@@ -288,6 +294,24 @@ func run(r *enumx.Run, replay *enumx.ReplayCase) {
 	lap := func(name string) {
 		r.Set("wall_s_"+name, time.Since(t0).Seconds())
 		t0 = time.Now()
+	}
+
+	// ---- S4 (thorough only): the streamed 65 538-segment document, both
+	// directions, started now and joined at the end
+	var bigWG sync.WaitGroup
+	var bigSecs [2]float64
+	if r.Thorough() {
+		for dir := 0; dir < 2; dir++ {
+			bigWG.Add(1)
+			go func(dir int) {
+				defer bigWG.Done()
+				c := &Case{Cipher: 1, KW: chunkKW, Dir: dir, Big: true, Len: -1}
+				fails, secs := bigStream(dir)
+				report(c, fails)
+				r.Count(1, 1)
+				bigSecs[dir] = secs
+			}(dir)
+		}
 	}
 
 	// ---- S1
@@ -455,6 +479,12 @@ func run(r *enumx.Run, replay *enumx.ReplayCase) {
 		r.Space(fmt.Sprintf("S3 deviation-bounded chunking: all placements of <= %d deviations, lengths %v x 2 ciphers x 2 directions under %s (runs per number of deviations: %v)", bound, lengths, chunkKW, perLevel))
 	} else {
 		r.Incomplete(fmt.Sprintf("S3 deviation-bounded chunking: %d of %d first-level subtrees finished (runs per number of deviations so far: %v)", done, len(tasks), perLevel))
+	}
+	if r.Thorough() {
+		bigWG.Wait()
+		r.Space(fmt.Sprintf("S4 one streamed document of 65538 segments (%d bytes of zeros, AES-GCM, %s), kit -> streaming reference and streaming reference -> kit (%.0f s and %.0f s, concurrent with S1-S3)", bigLen, chunkKW, bigSecs[0], bigSecs[1]))
+		r.Set("big_stream_seconds", bigSecs)
+		lap("S4_wait")
 	}
 	if len(roots) > 0 && len(roots[0].succ) > 0 {
 		rt := roots[0]
